@@ -1,13 +1,23 @@
 """C06 - formulate() is a pure function of (reaction, configuration).
 
 R-CACHE   the mutable part of a memoised result is never mutated and never escapes through a
-          function that formulate reaches without being copied.
+          function that formulate reaches without being copied.  Aliases are followed through
+          locals, ``[i]`` / tuple unpacking of a ``tuple[...]`` result (only the mutable components
+          alias shared state), wrappers that return the object, and INTO helpers: a parameter is
+          whatever the call sites pass (``CallSites`` + ``bind_argument``).
 R-EFFECT  the writes reachable from formulate go to fresh objects or to the scratch state
-          that is reset first; nothing else of the builder / module survives.
+          that is reset first; nothing else of the builder / module survives.  A write to a
+          parameter is judged at the call sites on the formulate path (``argument_survives``):
+          every one of them must pass an object created during the call (``Freshness``: display,
+          comprehension, copy, new instance, result of a package function that returns such an
+          object on every path), scratch state, or its own argument for which the same holds.
+          An extracted helper therefore behaves like the code it was extracted from, while an
+          element of a container, object state or a cached object handed to it is still reported.
 R-ORDER   no unordered container with hash-seed-sensitive elements reaches an order-
           preserving sink without sorted().
-R-CANON   every mapping field of HelicityModel has a converter that builds a new, sorted
-          mapping.
+R-CANON   every mapping field of HelicityModel has a converter that returns, on every path, a new
+          mapping filled in sorted order of its argument (``converter_result``: locals substituted,
+          package helpers that receive the argument are followed).
 """
 
 from __future__ import annotations
@@ -118,6 +128,156 @@ def reach_from(tree: Tree, start: str) -> dict[str, FuncInfo]:
     return seen
 
 
+# --------------------------------------------------------------------------- call sites / freshness
+
+
+def bind_argument(tree: Tree, call: ast.Call, g: FuncInfo, param: str) -> tuple[str, ast.AST | None]:
+    """The expression a call site passes for parameter ``param`` of ``g``:
+    ("expr", node) | ("default", None) - not passed, the default applies | ("unknown", None) - hidden
+    behind ``*args`` / ``**kwargs``."""
+    a = g.node.args
+    positional = [x.arg for x in [*a.posonlyargs, *a.args]]
+    is_static = any(unparse(d).split(".")[-1] == "staticmethod" for d in g.node.decorator_list)
+    is_clsm = any(unparse(d).split(".")[-1] == "classmethod" for d in g.node.decorator_list)
+    if g.cls is not None and not is_static and positional:
+        bound = True
+        if isinstance(call.func, ast.Attribute) and not is_clsm:
+            recv = tree.resolve(call._module, call.func.value, tree.func_of(call))  # type: ignore[attr-defined]
+            if recv in tree.classes:
+                bound = False  # Class.method(obj, ...): the receiver is the first positional argument
+        if g.name in {"__init__", "__new__", "__attrs_post_init__"} or bound:
+            positional = positional[1:]
+    for k in call.keywords:
+        if k.arg == param:
+            return "expr", k.value
+    for i, arg in enumerate(call.args):
+        if isinstance(arg, ast.Starred):
+            return "unknown", None
+        if i < len(positional) and positional[i] == param:
+            return "expr", arg
+    if a.vararg is not None and a.vararg.arg == param:
+        return "unknown", None
+    if any(k.arg is None for k in call.keywords):
+        return "unknown", None
+    return "default", None
+
+
+class CallSites:
+    """Who calls a function (resolved callee, overriding methods, or - for an unresolvable
+    ``x.method()`` - every method of that name: the same approximation as the reach)."""
+
+    def __init__(self, tree: Tree, scope: dict[str, FuncInfo]) -> None:
+        self.sites: dict[str, list[tuple[FuncInfo, ast.Call]]] = {}
+        seen: set[int] = set()
+        for q, f in sorted(scope.items()):
+            if not q.startswith("ampform"):
+                continue
+            for call, _ in tree.calls_in(f, nested=True):
+                if id(call) in seen:
+                    continue
+                seen.add(id(call))
+                owner = tree.func_of(call) or f
+                for tgt in cha_targets(tree, call, owner):
+                    self.sites.setdefault(tgt.qual, []).append((owner, call))
+                callee = tree.callee(call, owner)
+                if callee in tree.classes:
+                    for name in ("__init__", "__new__", "__attrs_post_init__"):
+                        m = tree.lookup_method(tree.classes[callee], name)
+                        if m is not None:
+                            self.sites.setdefault(m.qual, []).append((owner, call))
+
+    def of(self, g: FuncInfo) -> list[tuple[FuncInfo, ast.Call]]:
+        return self.sites.get(g.qual, [])
+
+
+FRESH_BUILDERS = {"dict", "list", "set", "sorted", "OrderedDict", "defaultdict", "deepcopy", "copy", "bytearray", "deque", "Counter"}
+
+
+class Freshness:
+    """Does an expression evaluate to an object that was created during the current call (a
+    display, a comprehension, a copy, a new instance, or the result of a package function that
+    returns such an object on every path)?  A write to such an object cannot outlive formulate()
+    unless the object itself is stored somewhere, which is a write of its own.  Everything that is
+    not provably new - a parameter, an element of a container, an attribute, the result of a
+    memoised or unknown function - is NOT fresh."""
+
+    def __init__(self, tree: Tree) -> None:
+        self.tree = tree
+        self.memo = {f.qual for f in memoised_functions(tree)}
+        self._rd: dict[str, RD] = {}
+        self._ret: dict[str, bool | None] = {}
+
+    def rd(self, fn: FuncInfo) -> RD:
+        top = fn
+        while top.outer is not None:
+            top = top.outer
+        if top.qual not in self._rd:
+            self._rd[top.qual] = RD(top.node)
+        return self._rd[top.qual]
+
+    def fresh(self, expr: ast.AST, fn: FuncInfo, depth: int = 0, busy: set[int] | None = None) -> bool:
+        if depth > 20:
+            return False
+        busy = busy if busy is not None else set()
+        if isinstance(expr, (ast.Dict, ast.List, ast.Set, ast.DictComp, ast.ListComp, ast.SetComp, ast.GeneratorExp)):
+            return True
+        if isinstance(expr, ast.IfExp):
+            return self.fresh(expr.body, fn, depth + 1, busy) and self.fresh(expr.orelse, fn, depth + 1, busy)
+        if isinstance(expr, ast.NamedExpr):
+            return self.fresh(expr.value, fn, depth + 1, busy)
+        if isinstance(expr, ast.Call):
+            f = expr.func
+            name = f.id if isinstance(f, ast.Name) else f.attr if isinstance(f, ast.Attribute) else None
+            callee = self.tree.callee(expr, fn)
+            if callee in self.tree.classes:
+                return True
+            targets = cha_targets(self.tree, expr, fn)
+            if targets:
+                return all(self.returns_fresh(g, depth + 1) for g in targets)
+            if name in FRESH_BUILDERS and (callee is None or "::" not in callee):
+                return True
+            return False
+        if isinstance(expr, ast.Name) and isinstance(expr.ctx, ast.Load):
+            defs = self.rd(fn).reaching(expr)
+            return bool(defs) and all(self.def_fresh(d, fn, depth + 1, busy) for d in defs)
+        return False
+
+    def def_fresh(self, d: Def, fn: FuncInfo, depth: int, busy: set[int]) -> bool:
+        if id(d) in busy:
+            return True  # a cycle of in-place updates adds no new origin
+        owner = self.tree.func_of(d.node) or fn
+        if d.kind in {"assign", "with"} and d.value is not None and d.index is None and not isinstance(d.node, ast.AugAssign):
+            return self.fresh(d.value, owner, depth, busy)
+        if d.kind in {"store", "aug"}:
+            # an object that is updated in place stays the object it was
+            before = [dep for dep in d.deps if dep.name == d.name and dep is not d]
+            return bool(before) and all(self.def_fresh(dep, fn, depth + 1, busy | {id(d)}) for dep in before)
+        return False
+
+    def returns_fresh(self, g: FuncInfo, depth: int = 0) -> bool:
+        if g.qual in self._ret:
+            return bool(self._ret[g.qual])  # None = in progress (recursion): not proven
+        if g.qual in self.memo or any(isinstance(n, (ast.Yield, ast.YieldFrom)) for n in walk_function(g.node, nested=False)):
+            self._ret[g.qual] = False
+            return False
+        self._ret[g.qual] = None
+        returns = [n for n in walk_function(g.node, nested=False) if isinstance(n, ast.Return) and n.value is not None and not (isinstance(n.value, ast.Constant) and n.value.value is None)]
+        if not returns:
+            # an abstract method hands out nothing: its overriding methods are judged on their own
+            ok = _is_abstract(g)
+        else:
+            ok = all(self.fresh(r.value, g, depth + 1) for r in returns)
+        self._ret[g.qual] = ok
+        return ok
+
+
+def _is_abstract(g: FuncInfo) -> bool:
+    if any(unparse(d).split(".")[-1] == "abstractmethod" for d in g.node.decorator_list):
+        return True
+    body = [s for s in g.node.body if not (isinstance(s, ast.Expr) and isinstance(s.value, ast.Constant))]
+    return all(isinstance(s, ast.Pass) or (isinstance(s, ast.Raise) and "NotImplementedError" in unparse(s)) for s in body)
+
+
 # --------------------------------------------------------------------------- R-CACHE
 
 
@@ -126,6 +286,9 @@ class AliasFlow:
         self.tree = tree
         self.shared: dict[str, str] = dict(sources)  # qual -> origin description
         self._rd: dict[str, RD] = {}
+        self._sites: CallSites | None = None
+        self._param_memo: dict[tuple[str, str], str | None] = {}
+        self._param_busy: set[tuple[str, str]] = set()
 
     def rd(self, fn: FuncInfo) -> RD:
         top = fn
@@ -152,12 +315,8 @@ class AliasFlow:
             return None
         if isinstance(expr, ast.Subscript):
             inner = self.origin(expr.value, fn, depth + 1)
-            if inner and isinstance(expr.slice, ast.Constant) and isinstance(expr.slice.value, int) and isinstance(expr.value, ast.Call):
-                # component of a tuple-valued result: only the mutable components alias shared state
-                for tgt in cha_targets(self.tree, expr.value, fn):
-                    comps = tuple_components(tgt)
-                    if comps is not None and expr.slice.value < len(comps) and not MUTABLE_ANN.search(comps[expr.slice.value]):
-                        return None
+            if inner and isinstance(expr.slice, ast.Constant) and isinstance(expr.slice.value, int) and self.immutable_component(expr.value, expr.slice.value, fn):
+                return None
             return inner
         if isinstance(expr, ast.Starred):
             return self.origin(expr.value, fn, depth + 1)
@@ -171,11 +330,41 @@ class AliasFlow:
                     return o
         return None
 
+    def immutable_component(self, value: ast.AST, index: int, fn: FuncInfo) -> bool:
+        """``value`` is (a local name for) the ``tuple[A, B, ...]`` result of a call: is component
+        ``index`` - selected by ``[index]`` or by tuple unpacking - one of the immutable ones?  Only the
+        mutable components of a shared tuple alias shared state."""
+        if isinstance(value, ast.Name) and isinstance(value.ctx, ast.Load):
+            defs = self.rd(fn).reaching(value)
+            if len(defs) != 1:
+                return False
+            d = next(iter(defs))
+            if d.kind != "assign" or d.value is None or d.index is not None or isinstance(d.node, ast.AugAssign):
+                return False
+            value = d.value
+        if not isinstance(value, ast.Call):
+            return False
+        targets = cha_targets(self.tree, value, fn)
+        if not targets:
+            return False
+        for tgt in targets:
+            comps = tuple_components(tgt)
+            if comps is None or not 0 <= index < len(comps) or MUTABLE_ANN.search(comps[index]):
+                return False
+        return True
+
     def _def_origin(self, d: Def, fn: FuncInfo, depth: int) -> str | None:
         if depth > 12:
             return None
         if d.kind in {"assign", "with"} and d.value is not None:
-            return self.origin(d.value, fn, depth)
+            o = self.origin(d.value, fn, depth)
+            if o and d.index is not None and d.kind == "assign" and self._flat_unpacking(d) and self.immutable_component(d.value, d.index, fn):
+                return None  # ``a, _ = cached()``: a is the immutable component
+            return o
+        if d.kind == "param" and d.name not in {"self", "cls"}:
+            # the parameter of a helper is whatever its callers pass (a helper extracted from a
+            # function that mutates a shared object mutates the same object)
+            return self._param_origin(d, fn, depth)
         if d.kind == "store":
             # a mutated alias stays an alias of what it was before
             for dep in d.deps:
@@ -185,12 +374,44 @@ class AliasFlow:
                         return o
         return None
 
+    def _param_origin(self, d: Def, fn: FuncInfo, depth: int) -> str | None:
+        owner = self.tree.func_of(d.node) or fn
+        key = (owner.qual, d.name)
+        if key in self._param_memo:
+            return self._param_memo[key]
+        if key in self._param_busy or depth > 10:
+            return None
+        if self._sites is None:
+            self._sites = CallSites(self.tree, {q: f for q, f in self.tree.funcs.items() if q.startswith("ampform")})
+        self._param_busy.add(key)
+        found = None
+        for caller, call in self._sites.of(owner):
+            how, arg = bind_argument(self.tree, call, owner, d.name)
+            if how == "expr" and arg is not None:
+                o = self.origin(arg, caller, depth + 1)
+                if o:
+                    found = f"{o} -> passed to {owner.qual}({d.name})"
+                    break
+        self._param_busy.discard(key)
+        if found is not None or depth <= 1:
+            self._param_memo[key] = found
+        return found
+
+    @staticmethod
+    def _flat_unpacking(d: Def) -> bool:
+        """Was ``d`` created by ``a, b, ... = value`` with plain names only (so that ``d.index`` is
+        the position in ``value``; no starred or nested targets)?"""
+        if not isinstance(d.node, ast.Assign):
+            return False
+        return all(isinstance(t, (ast.Tuple, ast.List)) and all(isinstance(e, ast.Name) for e in t.elts) for t in d.node.targets)
+
     def fixpoint(self) -> None:
         changed = True
         rounds = 0
         while changed and rounds < 6:
             changed = False
             rounds += 1
+            self._param_memo.clear()  # what callers pass depends on the shared set of this round
             for q, fn in self.tree.funcs.items():
                 if not q.startswith("ampform") or q in self.shared:
                     continue
@@ -206,6 +427,7 @@ class AliasFlow:
 
     def mutations(self) -> list[tuple[FuncInfo, ast.AST, str]]:
         out = []
+        self._param_memo.clear()
         for q, fn in self.tree.funcs.items():
             if not q.startswith("ampform"):
                 continue
@@ -293,6 +515,63 @@ def check_cache(ctx: Check, tree: Tree, reach: dict[str, FuncInfo]) -> None:
 # --------------------------------------------------------------------------- R-EFFECT
 
 
+def _new_container(v: ast.AST | None) -> bool:
+    return isinstance(v, (ast.Dict, ast.List, ast.Set)) or (isinstance(v, ast.Call) and unparse(v.func) in {"dict", "list", "set", "OrderedDict", "collections.OrderedDict"})
+
+
+def _setattr_on_self(st: ast.stmt) -> tuple[ast.AST, ast.AST] | None:
+    """``setattr(self, <name>, <value>)`` as a statement -> (name expression, value)."""
+    if isinstance(st, ast.Expr) and isinstance(st.value, ast.Call) and isinstance(st.value.func, ast.Name) and st.value.func.id == "setattr":
+        c = st.value
+        if len(c.args) == 3 and not c.keywords and isinstance(c.args[0], ast.Name) and c.args[0].id == "self":
+            return c.args[1], c.args[2]
+    return None
+
+
+def reset_fresh_fields(tree: Tree, reset: FuncInfo, fields: list[str]) -> dict[str, bool]:
+    """field -> is it bound to a container created by the statement itself.  Understood spellings:
+    ``self.f = {}``, ``setattr(self, "f", {})``, and an unconditional ``setattr(self, a.name, {})`` /
+    ``setattr(self, n, {})`` in the body of a loop over ``attrs.fields(type(self))`` (every field of the
+    class) / over a display of field names; the value expression is evaluated once per field."""
+    fresh: dict[str, bool] = {}
+    for st in walk_function(reset.node):
+        if isinstance(st, ast.Assign) and isinstance(st.targets[0], ast.Attribute) and unparse(st.targets[0].value) == "self":
+            fresh[st.targets[0].attr] = _new_container(st.value)
+        elif isinstance(st, ast.Expr):
+            sa_ = _setattr_on_self(st)
+            if sa_ is not None and isinstance(sa_[0], ast.Constant) and isinstance(sa_[0].value, str):
+                fresh[sa_[0].value] = _new_container(sa_[1])
+        elif isinstance(st, ast.For) and isinstance(st.target, ast.Name) and not st.orelse and st in reset.node.body:
+            names, via_name_attr = None, False
+            it = st.iter
+            if isinstance(it, (ast.Tuple, ast.List)) and all(isinstance(e, ast.Constant) and isinstance(e.value, str) for e in it.elts):
+                names = [e.value for e in it.elts]
+            elif isinstance(it, ast.Call) and len(it.args) == 1 and not it.keywords and tree.resolve(reset.module, it.func, reset) in {"attrs.fields", "attr.fields"}:
+                a = it.args[0]
+                own = unparse(a) in {"type(self)", "self.__class__"} or (reset.cls is not None and tree.resolve(reset.module, a, reset) == reset.cls.qual)
+                if own:
+                    names, via_name_attr = list(fields), True
+            if names is None:
+                continue
+            if any(isinstance(n, (ast.Break, ast.Continue, ast.Return)) for b in st.body for n in ast.walk(b)):
+                continue  # the loop may stop early or skip a field
+            if any(isinstance(n, ast.Name) and n.id == st.target.id and not isinstance(n.ctx, ast.Load) for b in st.body for n in ast.walk(b)):
+                continue  # the loop variable is re-bound in the body
+            for b in st.body:
+                sa_ = _setattr_on_self(b)
+                if sa_ is None:
+                    continue
+                key = sa_[0]
+                if via_name_attr:
+                    ok = isinstance(key, ast.Attribute) and key.attr == "name" and isinstance(key.value, ast.Name) and key.value.id == st.target.id
+                else:
+                    ok = isinstance(key, ast.Name) and key.id == st.target.id
+                if ok:
+                    for n in names:
+                        fresh[n] = _new_container(sa_[1])
+    return fresh
+
+
 def check_effects(ctx: Check, tree: Tree, reach: dict[str, FuncInfo]) -> None:
     formulate = tree.func(FORMULATE)
     # 1. scratch state is reset first
@@ -312,15 +591,15 @@ def check_effects(ctx: Check, tree: Tree, reach: dict[str, FuncInfo]) -> None:
     reset = ing.methods.get("reset")
     if reset is None:
         raise AnalysisError("vanished anchor: _HelicityModelIngredients.reset")
-    fresh = {}
-    for st in walk_function(reset.node):
-        if isinstance(st, ast.Assign) and isinstance(st.targets[0], ast.Attribute) and unparse(st.targets[0].value) == "self":
-            fresh[st.targets[0].attr] = isinstance(st.value, (ast.Dict, ast.List, ast.Set)) or (isinstance(st.value, ast.Call) and unparse(st.value.func) in {"dict", "list", "set", "OrderedDict"})
+    fresh = reset_fresh_fields(tree, reset, fields)
     missing = [f for f in fields if not fresh.get(f)]
     ctx.verdict(not missing, "R-EFFECT", f"{ing.qual}.reset::all-fields", tree.loc(reset.node),
                 f"_HelicityModelIngredients.reset assigns a fresh container to each of its {len(fields)} fields", missing or None)
     # 3. writes reachable from formulate
     n_writes = 0
+    n_through = 0
+    sites = CallSites(tree, reach)
+    freshness = Freshness(tree)
     for q, fn in sorted(reach.items()):
         if not q.startswith("ampform"):
             continue
@@ -380,13 +659,67 @@ def check_effects(ctx: Check, tree: Tree, reach: dict[str, FuncInfo]) -> None:
                     continue
                 if fn.name in {"__init__", "__new__"}:
                     continue
-                ctx.violation("R-EFFECT", key, where, f"{q}: `{unparse(node)[:60]}` mutates its argument `{base}` on the formulate path")
+                # the write happens to whatever the callers on the formulate path hand in: it is
+                # harmless iff every one of them passes an object created during the call (or scratch state)
+                why = argument_survives(tree, sites, freshness, fn, base, scratch_attr, set())
+                if why is None:
+                    n_through += 1
+                    continue
+                ctx.violation("R-EFFECT", key, where, f"{q}: `{unparse(node)[:60]}` mutates its argument `{base}` on the formulate path ({why})")
                 continue
             mod = fn.module
             if base in mod.toplevel and not isinstance(mod.toplevel[base], (ast.FunctionDef, ast.ClassDef)):
                 ctx.violation("R-EFFECT", key, where, f"{q}: `{unparse(node)[:60]}` mutates module-level `{base}`")
     ctx.stats["writes_on_formulate_path"] = n_writes
+    ctx.stats["writes_to_arguments_that_are_fresh_at_every_call_site"] = n_through
     ctx.ok("R-EFFECT", tree.loc(formulate.node), f"{n_writes} write sites in {len(reach)} functions reachable from formulate: locals, constructor state or reset scratch state only")
+
+
+def argument_survives(tree: Tree, sites: CallSites, freshness: Freshness, g: FuncInfo, param: str, scratch_attr: str, busy: set[tuple[str, str]], depth: int = 0) -> str | None:
+    """``g`` writes to (the object bound to) its parameter ``param``.  None if every call site on the
+    formulate path passes an object that cannot outlive formulate() - created during the call, the
+    reset scratch state, state of an object under construction, or the caller's own argument for
+    which the same holds; otherwise the reason."""
+    if (g.qual, param) in busy:
+        return None
+    if depth > 8:
+        return "call chain too deep to follow"
+    busy = busy | {(g.qual, param)}
+    callers = sites.of(g)
+    if not callers:
+        return "no call site on the formulate path was found for it, so what it receives is unknown"
+    for caller, call in callers:
+        how, arg = bind_argument(tree, call, g, param)
+        if how == "default":
+            continue  # a mutable default that is written to is R-SHARED's finding
+        at = f"{caller.qual} (line {getattr(call, 'lineno', '?')})"
+        if how == "unknown" or arg is None:
+            return f"{at} passes it through */** arguments"
+        if freshness.fresh(arg, caller):
+            continue
+        txt = unparse(arg)
+        head = txt.split(".")[0].split("[")[0]
+        if head in {"self", "cls"} and isinstance(arg, (ast.Attribute, ast.Subscript)):
+            first_attr = txt.split(".")[1].split("[")[0] if "." in txt else ""
+            if first_attr.lstrip("_").endswith(scratch_attr.lstrip("_")):
+                continue
+            if caller.name in {"__init__", "__new__", "__attrs_post_init__", "reset"}:
+                continue
+            return f"{at} passes `{txt[:40]}`, object state that survives formulate()"
+        if isinstance(arg, ast.Name) and isinstance(arg.ctx, ast.Load):
+            defs = freshness.rd(caller).reaching(arg)
+            if defs and all(d.kind == "param" for d in defs) and arg.id not in {"self", "cls"}:
+                if caller.name in {"__init__", "__new__"}:
+                    continue
+                top = caller
+                while top.outer is not None and arg.id not in top.params:
+                    top = top.outer
+                inner = argument_survives(tree, sites, freshness, top, arg.id, scratch_attr, busy, depth + 1)
+                if inner is None:
+                    continue
+                return f"{at} passes its own argument `{arg.id}`: {inner}"
+        return f"{at} passes `{txt[:40]}`, which is not provably an object created during the call"
+    return None
 
 
 # --------------------------------------------------------------------------- R-SHARED
@@ -501,6 +834,60 @@ def check_shared_class_state(ctx: Check, tree: Tree) -> None:
 # --------------------------------------------------------------------------- R-CANON
 
 
+def _sorted_iteration(arg: ast.AST, param: str) -> bool:
+    """Does ``arg`` enumerate (the keys / items of) ``param`` in sorted order: ``sorted(param...)`` or a
+    comprehension whose outermost loop runs over it?"""
+    if isinstance(arg, ast.Call) and isinstance(arg.func, ast.Name) and arg.func.id == "sorted" and arg.args:
+        return any(isinstance(n, ast.Name) and n.id == param for n in ast.walk(arg.args[0]))
+    if isinstance(arg, (ast.ListComp, ast.GeneratorExp, ast.DictComp)):
+        return _sorted_iteration(arg.generators[0].iter, param)
+    return False
+
+
+def converter_result(tree: Tree, fn: FuncInfo, param: str | None = None, depth: int = 0) -> tuple[bool, bool, bool]:
+    """What a converter hands back for its argument ``param``, on every return path:
+    (a new mapping, filled in sorted order of the argument, wrapped in ParameterValues).
+    Locals are substituted by their definitions; a call of a package function that receives the
+    argument is followed into that function (a shared ordering helper is part of the converter)."""
+    from ..inline import Inliner
+
+    if param is None:
+        positional = [p for p in fn.params if p not in {"self", "cls"}]
+        if not positional:
+            return False, False, False
+        param = positional[0]
+    returns = [n for n in walk_function(fn.node, nested=False) if isinstance(n, ast.Return)]
+    if not returns or depth > 6:
+        return False, False, False
+    inl = Inliner(fn.node)
+    new_all, sorted_all, wraps_any = True, True, False
+    for r in returns:
+        e = inl.expr(r.value, stop={param}) if r.value is not None else None
+        new, srt = False, False
+        if isinstance(e, ast.DictComp):
+            new, srt = True, _sorted_iteration(e, param)
+        elif isinstance(e, ast.Call):
+            callee = tree.resolve(fn.module, e.func, fn)
+            last = unparse(e.func).split(".")[-1]
+            if callee in tree.funcs:
+                g = tree.funcs[callee]
+                passed = []
+                for p in g.params:
+                    how, arg = bind_argument(tree, e, g, p)
+                    if how == "expr" and isinstance(arg, ast.Name) and arg.id == param:
+                        passed.append(p)
+                if len(passed) == 1:
+                    new, srt, w = converter_result(tree, g, passed[0], depth + 1)
+                    wraps_any = wraps_any or w
+            elif last == "ParameterValues" and callee in tree.classes:
+                new, wraps_any = True, True
+            elif last in {"OrderedDict", "dict"} and (callee is None or "::" not in callee):
+                new = True
+                srt = bool(e.args) and _sorted_iteration(e.args[0], param)
+        new_all, sorted_all = new_all and new, sorted_all and srt
+    return new_all, sorted_all, wraps_any
+
+
 def check_converters(ctx: Check, tree: Tree) -> None:
     cls = tree.cls(MODEL)
     n = 0
@@ -523,9 +910,8 @@ def check_converters(ctx: Check, tree: Tree) -> None:
         if fn is None:
             ctx.info("R-CANON", tree.loc(st), f"HelicityModel.{name}: converter {unparse(conv)} (external)")
             continue
-        body = unparse(fn.node)
-        builds_new = any(isinstance(nn, ast.Call) and unparse(nn.func).split(".")[-1] in {"OrderedDict", "dict", "ParameterValues"} for nn in walk_function(fn.node))
-        sorts = "sorted(" in body
+        builds_new, sorts, wraps = converter_result(tree, fn)
+        body = "ParameterValues" if wraps else ""
         if not builds_new:
             ctx.violation("R-CANON", key, tree.loc(st), f"HelicityModel.{name}: converter {fn.name} does not build a new mapping")
         elif not sorts:
